@@ -195,6 +195,35 @@ func (e *env) genC12() c12case {
 		c.Ctor = []interface{}{"CC", ps}
 	}
 	e.st.Hit("ctor:" + c.Ctor[0].(string))
+	if e.rng.Chance(12) {
+		// an iterator is an index into the live list: advance it, shrink the list below its position, ask again,
+		// let the list grow again, ask again
+		ps := [][]string{{"a", "1"}, {"b", "2"}, {"a", "3"}, {"c", "4"}}[:2+e.rng.Intn(3)]
+		c.Ctor = []interface{}{"CP", ps}
+		c.Ops = append(c.Ops, []interface{}{[]string{"IK", "IV", "IE"}[e.rng.Intn(3)], e.rng.Bool()})
+		for i := 0; i < 1+e.rng.Intn(len(ps)+1); i++ {
+			c.Ops = append(c.Ops, []interface{}{"N", 0})
+		}
+		for round := 0; round < 2+e.rng.Intn(3); round++ {
+			switch e.rng.Intn(4) {
+			case 0:
+				c.Ops = append(c.Ops, []interface{}{"D1", []string{"a", "b", "c"}[e.rng.Intn(3)]})
+			case 1:
+				c.Ops = append(c.Ops, []interface{}{"S", "a", "9"})
+			case 2:
+				c.Ops = append(c.Ops, []interface{}{"D1", "a"}, []interface{}{"D1", "b"}, []interface{}{"D1", "c"})
+			default:
+				c.Ops = append(c.Ops, []interface{}{"A", e.word(), e.word()})
+			}
+			c.Ops = append(c.Ops, []interface{}{"N", 0})
+			if e.rng.Chance(60) {
+				c.Ops = append(c.Ops, []interface{}{"A", e.word(), e.word()}, []interface{}{"N", 0})
+			}
+		}
+		c.Ops = append(c.Ops, []interface{}{"N", 0})
+		e.st.Hit("template:iterator-shrink-grow")
+		return c
+	}
 	nops := e.rng.Intn(16)
 	niter := 0
 	for i := 0; i < nops; i++ {
